@@ -130,6 +130,25 @@ def main(argv):
                 r["verdict"] = "unwind"
                 continue
             # replay natively
+            if term and r["unwinding_failed"] and not r["property_failed"]:
+                rp = kani.run(h, os.path.join(kani.LOGS, f"{h['prop']}-{h['name']}.trace.log"),
+                              extra=["-Z", "unstable-options", "--output-format", "old", "--cbmc-args", "--trace"],
+                              timeout=int(h["timeout"] * tmul * 2), mem_gb=float(h.get("mem", mem)))
+                text = open(rp["log"], errors="replace").read()
+                tests = replay.tests_from_trace(h, text)
+                if not tests:
+                    inconclusive.append((h, "unwinding assertion failed in a termination harness but no trace values could be extracted"))
+                    continue
+                d = replay.make_dir(h, tests, text[-20000:])
+                ok, det = replay.run_dir(d)
+                ok = any(x.get("result") == "hang" for x in det)
+                r["replay"] = {"dir": d, "reproduced": ok, "details": det}
+                if ok:
+                    violations.append((h, d, r))
+                else:
+                    inconclusive.append((h, f"non-termination counterexample did not hang natively: {det}"))
+                    r["verdict"] = "nonrepro"
+                continue
             rp = kani.run(h, os.path.join(kani.LOGS, f"{h['prop']}-{h['name']}.playback.log"),
                           extra=["-Z", "concrete-playback", "--concrete-playback=print"],
                           timeout=int(h["timeout"] * tmul * 2), mem_gb=float(h.get("mem", mem)))
